@@ -66,7 +66,7 @@ package net
 //@ func (*Peer).loadAndPublishReplicators -> (err)
 //@   loop 1 invariant repUpdates == old(repUpdates) + mathint(rangeindex) + 1 && sameslice(rangeslice, res(GetAllReplicators, 1, 0))
 //@   loop 2 invariant forall(string(s), maphas(storedCollectionIDs, s) ==> exists(j, 0 <= j && j <= rangeindex, rangeslice[j] == s))
-//@   loop 2 invariant sameslice(rangeslice, rep.CollectionIDs) && repUpdates == old(repUpdates) + mathint(rangeindex_outer) + 1
+//@   loop 2 invariant sameslice(rangeslice, rep.CollectionIDs) && repUpdates == old(repUpdates) + mathint(rangeindex1) + 1
 //@   assert before call#1 updateReplicators: arg1 == rep.Info && forall(string(s), maphas(arg2, s) ==> exists(j, 0 <= j && j < len(rep.CollectionIDs), rep.CollectionIDs[j] == s))
 //@   ensures err == nil ==> repUpdates == old(repUpdates) + mathint(len(res(GetAllReplicators, 1, 0)))
 //@   modifies repUpdates
